@@ -474,20 +474,52 @@ def _r5(ctx):
                         ok = False
                 ctx.decide(ok, "C04-R5", c, TOP, q, desc, "counter updated on every path, in the right direction",
                            "self.%s is edited but self.%s is not updated (or in the wrong direction) on some path" % (lst, cnt))
-    # index renumbering loops in insert/delete cover the suffix
-    for mname, start_ok in (("insert_atom", ("index",)), ("delete_atom_by_index", ("index + 1",))):
+    # insert_atom / delete_atom_by_index evaluated (sa/tensym.py) on a topology of 5 atoms in one residue, at the first, a middle and the last
+    # position: afterwards the k-th atom of the list carries index k, the counter is the length of the list, and the residue's list follows.
+    # How the renumbering is written (index loop, slice loop, comprehension) does not matter.
+    from ..tensym import TenSym, Obj
+    from ..pysym import Unsupported
+
+    def world(n=5):
+        res = Obj(tag="res", _atoms=[])
+        atoms = [Obj(tag="atom%d" % k, index=k, residue=res) for k in range(n)]
+        res._atoms = list(atoms)
+        return Obj(tag="top", _atoms=list(atoms), _numAtoms=n), res, atoms
+
+    def mk_atom(ev, call):
+        args = [ev.ex(x) for x in call.args]
+        return Obj(tag="new", name=args[0], element=args[1], index=args[2], residue=args[3])
+
+    def as_int(v):
+        c = v.const_value() if hasattr(v, "const_value") else v
+        return int(c) if c is not None and c == int(c) else None
+    for mname, positions in (("insert_atom", (0, 2, 5, None)), ("delete_atom_by_index", (0, 2, 4))):
         q = "Topology." + mname
         fn = ctx.py.func(TOP, q)
-        found = False
-        for n in walk_no_nested(fn):
-            if isinstance(n, ast.For) and isinstance(n.iter, ast.Call) and call_name(n.iter) == "range" and len(n.iter.args) == 2:
-                a, b = n.iter.args
-                found = True
-                ok = src(a) in start_ok and src(b) == "len(self._atoms)"
-                ctx.decide(ok, "C04-R5", n, TOP, q, "renumber loop range(%s, %s)" % (src(a), src(b)), "covers the suffix",
-                           "index renumbering does not cover exactly the atoms after the edit point")
-        if not found:
-            ctx.violated("C04-R5", fn, TOP, q, "renumber loop", "no loop renumbers the atoms after the edit point")
+        for pos in positions:
+            top, res, atoms = world()
+            desc = "%s at position %s of 5 atoms: atom k carries index k afterwards" % (mname, "end (index=None)" if pos is None else pos)
+            ts = TenSym(models={"Atom": mk_atom})
+            try:
+                if mname == "insert_atom":
+                    ts.run_fn(fn, self=top, name="X", element=Obj(tag="el"), residue=res, index=pos)
+                else:
+                    ts.run_fn(fn, self=top, index=pos)
+            except Unsupported as e:
+                ctx.undecided("C04-R5", fn, TOP, q, desc, "not evaluable: %s" % e)
+                continue
+            idx = [as_int(a_.index) for a_ in top._atoms]
+            want_n = 6 if mname == "insert_atom" else 4
+            why = None
+            if idx != list(range(len(top._atoms))):
+                why = "the atoms carry the indices %s" % idx
+            elif len(top._atoms) != want_n or as_int(top._numAtoms) != want_n:
+                why = "%d atoms in the list, counter %s" % (len(top._atoms), top._numAtoms)
+            elif len(res._atoms) != want_n:
+                why = "the residue lists %d atoms, the topology %d" % (len(res._atoms), want_n)
+            elif mname == "delete_atom_by_index" and any(x is atoms[pos] for x in top._atoms):
+                why = "the atom removed is not the one at the requested position"
+            ctx.decide(why is None, "C04-R5", fn, TOP, q, desc, "indices 0..%d, counter %d" % (want_n - 1, want_n), why or "")
 
 
 # -------------------------------------------------------------------------------------------------
